@@ -3227,7 +3227,9 @@ impl Lexer<'_> {
         // of lexing possibly escaped text in a string expression
         let mut lit_start_idx = self.buffer.next_string_literal_start();
         let mut lit_end_idx = lit_start_idx;
-        let mut last_lit_end_byte_offset = self.cur_byte_offset();
+        // The first literal section starts at the token start, not at the cursor:
+        // the caller may have already consumed the leading `%` or `&`s of this token
+        let mut last_lit_end_byte_offset = self.cur_token_byte_offset;
 
         // Now lex the string
         while let Some(c) = self.cursor.peek() {
